@@ -231,6 +231,13 @@ Fixpoint rec_insert (a : path * Z) (l : list (path * Z)) : list (path * Z) :=
   end.
 Definition sort_recs (l : list (path * Z)) : list (path * Z) := fold_right rec_insert [] l.
 
+(* `{r.path: r for r in records}.values()`: one record per path (the last one made), before sorting *)
+Fixpoint dedup_recs (l : list (path * Z)) : list (path * Z) :=
+  match l with
+  | [] => []
+  | a :: r => if existsb (fun b => path_eqb (fst a) (fst b)) r then dedup_recs r else a :: dedup_recs r
+  end.
+
 Definition add_recs (c : cfg) (s : st) (l : list (path * Z)) : st :=
   fold_left (fun s a => add_record c s (fst a) (snd a)) l s.
 Definition modify_recs (c : cfg) (s : st) (l : list (path * Z)) : st :=
@@ -249,9 +256,9 @@ Fixpoint modify_lazy (c : cfg) (s : st) (l : list path) : st :=
   end.
 
 Definition add_files (c : cfg) (s : st) (l : list path) (sort : bool) : st :=
-  if sort then add_recs c s (sort_recs (get_records s l)) else add_lazy c s l.
+  if sort then add_recs c s (sort_recs (dedup_recs (get_records s l))) else add_lazy c s l.
 Definition modify_files (c : cfg) (s : st) (l : list path) (sort : bool) : st :=
-  if sort then modify_recs c s (sort_recs (get_records s l)) else modify_lazy c s l.
+  if sort then modify_recs c s (sort_recs (dedup_recs (get_records s l))) else modify_lazy c s l.
 Definition remove_files (c : cfg) (s : st) (l : list path) : st :=
   fold_left (remove_record c) l s.
 
